@@ -117,13 +117,14 @@ def check(d, all_props=False, only=None):
                 res["runs"][p] = "not claimed"
                 continue
             t0 = time.time()
-            rc, out = sh("python3 vx/check.py --property %s --tier quick" % p, cwd="/verif", timeout=3600, env={"VERIF_REPO": scratch, "VERIF_BUILD": "/tmp/vb_seed_%d" % os.getpid(), "VERIF_EVIDENCE": "/tmp/ve_seed_%d" % os.getpid()})
+            rc, out = sh("python3 vx/check.py --property %s --tier quick" % p, cwd="/verif", timeout=3600, env={"VERIF_REPO": scratch, "VERIF_BUILD": "/tmp/vb_seed_%d" % os.getpid(), "VERIF_EVIDENCE": "/tmp/ve_seed_%d" % os.getpid(), "VERIF_REPLAY": "/tmp/vr_seed_%d" % os.getpid(), "VERIF_ORACLE_EXCLUDE": os.path.basename(d.rstrip("/"))})
             lines = [l for l in out.split("\n") if l.startswith(("VIOLATION", "UNDECIDED", "KNOWN-FINDING", "property "))]
             res["runs"][p] = {"exit": rc, "lines": [l[:400] for l in lines][:8], "wall_s": round(time.time() - t0, 1)}
         res["detected"] = any(isinstance(r, dict) and r["exit"] == 1 for r in res["runs"].values())
     shutil.rmtree(scratch, ignore_errors=True)
     shutil.rmtree("/tmp/vb_seed_%d" % os.getpid(), ignore_errors=True)
     shutil.rmtree("/tmp/ve_seed_%d" % os.getpid(), ignore_errors=True)
+    shutil.rmtree("/tmp/vr_seed_%d" % os.getpid(), ignore_errors=True)
     m.setdefault("detection", {})[subprocess.check_output(["git", "-C", "/verif", "rev-parse", "--short", "HEAD"], text=True).strip()] = res
     save_meta(d, m)
     return res
